@@ -43,6 +43,16 @@ def run(res, a):
     exe = build(res)
     if exe is None:
         return
+    # corpus first: the witnesses of the repaired defects (known_findings.txt, fixed: C07 ...)
+    cdir = os.path.join(vlib.VERIF, "corpus", "C07"); ncorpus = 0
+    for name in sorted(os.listdir(cdir)) if os.path.isdir(cdir) else []:
+        if not name.endswith(".trace"): continue
+        rc, out, err = apitrace.run_one(exe, os.path.join(cdir, name), dump=False)
+        v, ended = apitrace.parse(rc, out); ncorpus += 1
+        for op, kind, text in v:
+            if kind in KINDS:
+                res.violation("impl:" + kind, "corpus/C07/%s reproduces: %s" % (name, text), witness=open(os.path.join(cdir, name)).read(), replay_name="C07_corpus_%s" % name)
+                break
     big = a.tier == "thorough"
     import props.C13 as c13
     idx = c13.option_index()
